@@ -58,11 +58,10 @@ Definition cggi_block (n block : nat) (b : Z) (av sv : list Z) (lut0 : poly) : p
    acc is `ext` polynomials.  t = 2N*ext.
    initial:  b_pos = (b + t) & (t-1), b_hi = b_pos / ext, b_lo = b_pos & (ext-1)
              acc[i] = X^{b_hi+1} lut[ext - b_lo + i]  (i < b_lo) ; acc[i] = X^{b_hi} lut[i - b_lo]  (i >= b_lo)
-   per LWE coefficient in a block (v[j] = acc_at_block_start[j] [x] brk):
+   per LWE coefficient in a block (v[j] = acc_at_block_start[j] [x] brk), as repaired by /repo acfeda9:
      ai_lo == 0 : if ai_hi != 0 : add[j] += X^{ai_hi} v[j] - v[j]
-     ai_lo != 0 : if (ai_hi+1) & (2N-1) != 0 : add[i] += X^{ai_hi+1} v[ext-ai_lo+i] - v[i]   (i <  ai_lo)
-                  if ai_hi != 0              : add[i] += X^{ai_hi}   v[i-ai_lo]     - v[i]   (i >= ai_lo)
-   the two `if`s of the second case are transcribed as they are (they skip non-zero terms, see Proofs/C14Blind.v). *)
+     ai_lo != 0 : add[i] += X^{(ai_hi+1) & (2N-1)} v[ext-ai_lo+i] - v[i]   (i <  ai_lo)
+                  add[i] += X^{ai_hi}              v[i-ai_lo]     - v[i]   (i >= ai_lo) *)
 Definition ext_init (n : nat) (b : Z) (lutp : list poly) : list poly :=
   let e := Z.of_nat (length lutp) in
   let t := 2 * Z.of_nat n * e in
@@ -85,11 +84,9 @@ Definition ext_contrib (n : nat) (a s : Z) (acc : list poly) : list poly :=
          if ai_lo =? 0 then
            (if ai_hi =? 0 then zeros n else psub (zrot ai_hi vi) vi)
          else if Z.of_nat i <? ai_lo then
-           (if (ai_hi + 1) mod two_n =? 0 then zeros n
-            else psub (zrot (ai_hi + 1) (pnth v (Z.to_nat (e - ai_lo) + i))) vi)
+           psub (zrot ((ai_hi + 1) mod two_n) (pnth v (Z.to_nat (e - ai_lo) + i))) vi
          else
-           (if ai_hi =? 0 then zeros n
-            else psub (zrot ai_hi (pnth v (i - Z.to_nat ai_lo))) vi))
+           psub (zrot ai_hi (pnth v (i - Z.to_nat ai_lo))) vi)
       (seq 0 (length acc)).
 
 Definition ext_block_step (n : nat) (blk : list (Z * Z)) (acc : list poly) : list poly :=
@@ -99,15 +96,3 @@ Definition ext_block_step (n : nat) (blk : list (Z * Z)) (acc : list poly) : lis
 Definition cggi_extended (n block : nat) (b : Z) (av sv : list Z) (lutp : list poly) : list poly :=
   fold_left (fun acc blk => ext_block_step n blk acc) (chunks block (combine av sv)) (ext_init n b lutp).
 
-(* the corrected contribution (what the big-ring product (Y^{a} - 1) * acc is, Y^ext = X), used by the theorems *)
-Definition ext_contrib_spec (n : nat) (a s : Z) (acc : list poly) : list poly :=
-  let e := Z.of_nat (length acc) in
-  let t := 2 * Z.of_nat n * e in
-  let ai_pos := (a + t) mod t in
-  let ai_hi := ai_pos / e in let ai_lo := ai_pos mod e in
-  let v := map (pscale s) acc in
-  map (fun i : nat =>
-         let vi := pnth v i in
-         if Z.of_nat i <? ai_lo then psub (zrot (ai_hi + 1) (pnth v (Z.to_nat (e - ai_lo) + i))) vi
-         else psub (zrot ai_hi (pnth v (i - Z.to_nat ai_lo))) vi)
-      (seq 0 (length acc)).
